@@ -24,6 +24,7 @@ RULE = (
     "and per-direction spacings x adjust x pixel x meshgrid x extra_coords), invalid combinations, profile_coordinates "
     "(lattice end points x size 1..5 x extra). Each lattice is repeated under exact dyadic scale frames. A case is "
     "non-trivial unless it is an expected-refusal case; distinct = distinct canonical case."
+    " Added axes: scalar argument types (int, np.int64, np.float32), numpy-array region / shape / spacing with purity, near-fitting spacings for many intervals, starts of 7.46e6 and -2^30, extra_coords = 0."
 )
 ASSUMPTIONS = [
     "node values are compared at 4 ulp of the largest bound; first node and (adjust='spacing') last node exactly",
